@@ -19,6 +19,7 @@ import (
 	"fmt"
 	"math"
 	"sort"
+	"strings"
 	"testing"
 
 	"github.com/tsawler/tabula/core"
@@ -95,37 +96,40 @@ func checkCase(c Case) error {
 	}
 	prog := spell(c.Ops)
 
-	ex := text.NewExtractor()
-	if len(c.Forms) > 0 {
-		objs := map[int]core.Object{}
-		xobj := core.Dict{}
-		names := make([]string, 0, len(c.Forms))
-		for name := range c.Forms {
-			names = append(names, name)
-		}
-		sort.Strings(names)
-		for i, name := range names {
-			f := c.Forms[name]
-			data := spell(f.Ops)
-			mat := core.Array{}
-			for _, v := range f.Matrix {
-				mat = append(mat, numObj(v))
+	newExtractor := func() *text.Extractor {
+		ex := text.NewExtractor()
+		if len(c.Forms) > 0 {
+			objs := map[int]core.Object{}
+			xobj := core.Dict{}
+			names := make([]string, 0, len(c.Forms))
+			for name := range c.Forms {
+				names = append(names, name)
 			}
-			objs[10+i] = &core.Stream{Dict: core.Dict{
-				"Type": core.Name("XObject"), "Subtype": core.Name("Form"),
-				"BBox":   core.Array{core.Int(-10000), core.Int(-10000), core.Int(10000), core.Int(10000)},
-				"Matrix": mat, "Length": core.Int(len(data)),
-			}, Data: data}
-			xobj[name] = core.IndirectRef{Number: 10 + i}
-		}
-		ex.SetResourceContext(core.Dict{"XObject": xobj}, func(r core.IndirectRef) (core.Object, error) {
-			if o, ok := objs[r.Number]; ok {
-				return o, nil
+			sort.Strings(names)
+			for i, name := range names {
+				f := c.Forms[name]
+				data := spell(f.Ops)
+				mat := core.Array{}
+				for _, v := range f.Matrix {
+					mat = append(mat, numObj(v))
+				}
+				objs[10+i] = &core.Stream{Dict: core.Dict{
+					"Type": core.Name("XObject"), "Subtype": core.Name("Form"),
+					"BBox":   core.Array{core.Int(-10000), core.Int(-10000), core.Int(10000), core.Int(10000)},
+					"Matrix": mat, "Length": core.Int(len(data)),
+				}, Data: data}
+				xobj[name] = core.IndirectRef{Number: 10 + i}
 			}
-			return nil, fmt.Errorf("no object %d", r.Number)
-		})
+			ex.SetResourceContext(core.Dict{"XObject": xobj}, func(r core.IndirectRef) (core.Object, error) {
+				if o, ok := objs[r.Number]; ok {
+					return o, nil
+				}
+				return nil, fmt.Errorf("no object %d", r.Number)
+			})
+		}
+		return ex
 	}
-	frags, err := ex.ExtractFromBytes(prog)
+	frags, err := newExtractor().ExtractFromBytes(prog)
 	if err != nil {
 		return fmt.Errorf("ExtractFromBytes fails on %q: %v", prog, err)
 	}
@@ -147,6 +151,21 @@ func checkCase(c Case) error {
 		if !(f.FontSize >= lo && f.FontSize <= hi) {
 			return fmt.Errorf("fragment %q has font size %.6f, outside [%.6f, %.6f] = stretch range of [Tfs*Th 0 0 Tfs] x Tm x CTM = %v in %q%s",
 				s.Text, f.FontSize, s.SizeMin, s.SizeMax, s.Trm, prog, formNote(c))
+		}
+	}
+
+	// the reported size is a scale: turning the whole page by a quarter, a half or three quarters of a turn (an
+	// exact matrix, concatenated in front of the program) changes positions but no size
+	for _, turn := range []string{"0 1 -1 0 0 0 cm\n", "-1 0 0 -1 0 0 cm\n", "0 -1 1 0 0 0 cm\n"} {
+		tf, err := newExtractor().ExtractFromBytes(append([]byte(turn), prog...))
+		if err != nil || len(tf) != len(frags) {
+			return fmt.Errorf("the program turned by %q: %d fragments (err %v), %d without the turn, in %q", turn, len(tf), err, len(frags), prog)
+		}
+		for i := range frags {
+			if d := math.Abs(tf[i].FontSize - frags[i].FontSize); !(d <= 1e-6*math.Max(1, frags[i].FontSize)) {
+				return fmt.Errorf("fragment %q has font size %.6f, and %.6f when the whole page is turned by %q: a rotation does not scale (Tm x CTM = %v) in %q%s",
+					frags[i].Text, frags[i].FontSize, tf[i].FontSize, strings.TrimSpace(turn), m.Shown[i].Trm, prog, formNote(c))
+			}
 		}
 	}
 
@@ -403,6 +422,10 @@ func genCase(t *rapid.T) Case {
 		// the machine needs the forms defined so far to execute nested Do
 		fb := &builder{t: t, m: pdfmodel.New(forms), forms: forms, prefix: name + "t", labels: labels, avail: &avail}
 		n := rapid.IntRange(2, 10).Draw(t, "formLen")
+		if rapid.IntRange(0, 5).Draw(t, "emptyForm") == 0 {
+			n = 0 // a form without any content: painting it changes nothing, whatever its /Matrix
+			labels["form-empty"] = true
+		}
 		for len(fb.ops) < n {
 			fb.step(false)
 		}
